@@ -22,7 +22,7 @@ type c17 struct{ base }
 func init() {
 	core.Register(c17{base{id: "C17", level: "exploration", race: true, quickB: 8, thoroughB: 32,
 		rule:        "errors are built from a spec (base text + wrappers innermost-first over {WithCode, WithSeverity, WithHint, WithDetail, WithSource, WithConstraintName, fmt %w}); the flattening model computes the expected fields (outermost value, defaults ERROR/XXUUU, message = Go error text); each error is returned from a parser (simple Query and Parse) or a statement function (simple Query and Execute) and the ErrorResponse is parsed strictly and compared field for field. shared sentinel values (one built error decorated further by several reports and also reported as is) must keep their own fields; quick: exhaustive over all wrapper sequences up to depth 4 x 2 value variants + random depth <= 6; thorough: exhaustive depth 5 + 500k random depth <= 8. Non-trivial = at least two wrappers of which one repeats or is fmt-wrap/source/constraint; distinct = wrapper-kind sequence + context.",
-		need:        []string{"error_responses_compared", "with_source", "with_constraint", "repeated_decorator", "nil_error_reports", "empty_message_errors", "shared_sentinel_reports", "errors_reported_by_several_connections_at_once"},
+		need:        []string{"error_responses_compared", "with_source", "with_constraint", "repeated_decorator", "nil_error_reports", "empty_message_errors", "shared_sentinel_reports", "errors_reported_by_several_connections_at_once", "errors_returned_after_the_session_context_ended"},
 		assumptions: append([]string{"hint, detail, constraint, code and severity values are non-empty NUL-free strings (an empty hint/detail is indistinguishable from 'not set' in the API); the error text and the source file/function may be empty and must still be sent as (empty) fields; a 'V' (non-localised severity) field equal to S is tolerated"}, commonAssumptions...)}})
 }
 
